@@ -256,6 +256,12 @@ def drive_coroutine(ctx, igen, need_cb=None):
                 to_send = S.SInt(b)
             else:
                 ctx.trace.append(("emit", y))
+                err = getattr(y, "error", None)
+                if err is not None and hasattr(err, "_pyvc_snap"):
+                    # what the wrapped error says at the moment the warning leaves the walker
+                    from contracts.walker_stubs import error_snapshot
+
+                    ctx.ghost.setdefault("emit_snap", {})[id(y)] = error_snapshot(err)
                 to_send = None
     except StopIteration as e:
         return ("return", e.value)
